@@ -199,12 +199,18 @@ func (c *checker) runHistory(h []int, all bool) (key string, what string, pruned
 	}
 	for i, li := range h {
 		l := &c.alpha[li]
+		// Documented precondition: the election at the start of the next block can produce a validator set
+		// (evaluated on the committed state before the block, mirroring the scheduler's rules).
+		noValidators := validatorPreconditionFails(b.ref())
 		out, err := b.exec(l)
 		if err != nil {
 			return "", "harness: " + err.Error(), false
 		}
 		last := i == len(h)-1
 		ref := out.results[0]
+		if ref.Panic != "" && noValidators {
+			return "", "", true
+		}
 		// Documented precondition of C10 (and of everything else): the scheduler can elect a validator set.
 		if ref.Panic != "" && strings.Contains(ref.Panic, "validators") && strings.Contains(ref.Panic, "insufficient") {
 			return "", "", true
@@ -378,6 +384,9 @@ func timelinePhase(r *ev.Run, c *checker, vi int, profile string, opts chain.Gen
 		}
 		h[j.pos] = j.li
 		_, what, pruned := c.runHistory(h, true)
+		if pruned {
+			r.Add("timelines_pruned_by_precondition", 1)
+		}
 		r.Add("timeline_histories", 1)
 		r.Add("transitions", int64(n))
 		r.Add("blocks_executed", int64(n*len(c.specs)))
@@ -565,6 +574,17 @@ func runHistories(r *ev.Run) {
 	}
 	variantSeconds := map[string]float64{}
 	defer func() {}()
+	// The thorough tier runs under a time budget: a first pass gives every world the quick tier's depth and the
+	// long timelines, a second pass adds the deeper level world by world for as long as the budget lasts.
+	type passT struct {
+		depth     int
+		timelines bool
+	}
+	passes := []passT{{depth, true}}
+	if r.Thorough() && depth > 2 {
+		passes = []passT{{2, true}, {depth, false}}
+	}
+	for pi, pass := range passes {
 	for vi, opts := range variants {
 		for _, profile := range profiles {
 			vStart := time.Now()
@@ -584,7 +604,8 @@ func runHistories(r *ev.Run) {
 			frontier := [][]int{{}}
 			seen := map[string]bool{}
 			var mu sync.Mutex
-			vdepth := depth
+			vdepth := pass.depth
+			statesBefore := 0
 			if (prop == "C05" || prop == "C15") && !r.Thorough() && (opts.CommonPool > 0 && opts.CommonPool < 1000 || opts.GovMetadata) {
 				// quick tier: these worlds exist for one mechanism each (rewards meeting a depleted pool, proposals
 				// with metadata), which single letters and the timelines reach
@@ -648,13 +669,35 @@ func runHistories(r *ev.Run) {
 					}
 				})
 				frontier = next
+				if pi > 0 && level == passes[pi-1].depth {
+					statesBefore = len(seen)
+				}
 			}
-			r.Add("states", int64(len(seen)))
+			r.Add("states", int64(len(seen)-statesBefore))
 			tBFS := time.Since(vStart).Seconds()
-			timelinePhase(r, c, vi, profile, opts)
+			if !pass.timelines {
+				variantSeconds[fmt.Sprintf("variant_%02d_deep", vi)] = float64(int(tBFS*10)) / 10
+				continue
+			}
+			if r.Thorough() && opts.NodeExpiration == 0 && len(opts.NodeExpirations) == 0 && !opts.VRF {
+				// the genesis nodes of this world expire at epoch 4, before a 14-block timeline ends, after which no
+				// validator set can be elected (the documented precondition): the long timelines run on the same
+				// world with nodes that live through them
+				o2 := opts
+				o2.NodeExpiration = 12
+				if w2, err := newWorld(o2); err == nil {
+					c2 := &checker{prop: prop, w: w2, alpha: w2.alphabet(profile), specs: c.specs}
+					timelinePhase(r, c2, vi, profile, o2)
+				} else {
+					r.HarnessError("genesis variant %d with long-lived nodes: %v", vi, err)
+				}
+			} else {
+				timelinePhase(r, c, vi, profile, opts)
+			}
 			variantSeconds[fmt.Sprintf("variant_%02d", vi)] = float64(int(time.Since(vStart).Seconds()*10)) / 10
 			variantSeconds[fmt.Sprintf("variant_%02d_bfs", vi)] = float64(int(tBFS*10)) / 10
 		}
+	}
 	}
 	r.Set("seconds_per_genesis_variant", variantSeconds)
 	if prop == "C15" {
